@@ -14,6 +14,7 @@ G_APPEND1, G_INSERT1, G_INSERTN, G_INSRANGE, G_ERASE, G_RESIZE, G_CAP, G_ASSIGN,
 G_ALL = (1 << 12) - 1
 
 FLAVOR_TYPE = {"NM": "TokNM", "TM": "TokTM", "MO": "TokMO", "MOT": "TokMOT", "CO": "TokCO",
+               "MA": "TokMA", "MC": "TokMC", "SW": "TokSW",
                "TR": "Triv", "INT": "int"}
 TRIVIAL = ("TR", "INT")
 
@@ -1011,10 +1012,11 @@ def plan_C20(prop, tier):
 
 
 def plan_C18b_jobs(tier):
-    fl = ("NM", "TM", "MO", "TR") if tier == "quick" else ("NM", "TM", "MO", "MOT", "CO", "TR", "INT")
+    # the property's grid of element traits: {nothrow, throwing} move ctor x move assign x swap
+    fl = ("NM", "TM", "MA", "MC", "SW", "MO", "TR") if tier == "quick" else ("NM", "TM", "MA", "MC", "SW", "MO", "MOT", "CO", "TR", "INT")
     cfgs = grid(fl, W1_NS[tier], (1,)) + grid(("NM",), (0, 2), (0,))
     jobs = w1_jobs(tier, cfgs, G_ALL, 1)
-    jobs += w2_jobs(tier, ("NM", "TM"), W2_PAIRS[tier], (-1, 0, 2, 4, 8, 15), 1)
+    jobs += w2_jobs(tier, ("NM", "TM", "MA", "MC", "SW"), W2_PAIRS[tier], (-1, 0, 2, 4, 8, 15), 1)
     return jobs
 
 
